@@ -11,6 +11,8 @@ package gse
 import (
 	"go/token"
 	"go/types"
+
+	"golang.org/x/tools/go/ssa"
 )
 
 type syncState struct {
@@ -19,6 +21,7 @@ type syncState struct {
 	muVC   map[Ptr]vclock
 	wg     map[Ptr]int
 	wgVC   map[Ptr]vclock
+	pools  map[Ptr][]Value
 }
 
 func (m *Machine) syncSt() *syncState {
@@ -219,5 +222,64 @@ func extWGWait(m *Machine, caller *frame, args []Value) Value {
 		g.vc = joinVC(g.vc, st.wgVC[p])
 		g.tick()
 	}
+	return nil
+}
+
+// ---- sync.Pool: a LIFO free list per pool; Get falls back to the New field ----
+
+func (m *Machine) poolNew(p Ptr) Value {
+	st, ok := (*p).(Struct)
+	if !ok {
+		return nil
+	}
+	// the New field is the only func-typed field of sync.Pool
+	for _, f := range st {
+		switch fn := f.(type) {
+		case *Closure:
+			if fn != nil {
+				return fn
+			}
+		case *ssa.Function:
+			if fn != nil {
+				return fn
+			}
+		}
+	}
+	return nil
+}
+
+func extPoolGet(m *Machine, caller *frame, args []Value) Value {
+	p, _ := args[0].(Ptr)
+	if p == nil {
+		m.throwRuntime("invalid memory address or nil pointer dereference")
+	}
+	st := m.syncSt()
+	if st.pools == nil {
+		st.pools = map[Ptr][]Value{}
+	}
+	if l := st.pools[p]; len(l) > 0 {
+		v := l[len(l)-1]
+		st.pools[p] = l[:len(l)-1]
+		return v
+	}
+	if nf := m.poolNew(p); nf != nil {
+		return m.call(caller, token.NoPos, nf, nil)
+	}
+	return Iface{}
+}
+
+func extPoolPut(m *Machine, caller *frame, args []Value) Value {
+	p, _ := args[0].(Ptr)
+	if p == nil {
+		m.throwRuntime("invalid memory address or nil pointer dereference")
+	}
+	if m.frozen != nil && m.frozen[p] {
+		m.globalWrite("Put into a package-level sync.Pool")
+	}
+	st := m.syncSt()
+	if st.pools == nil {
+		st.pools = map[Ptr][]Value{}
+	}
+	st.pools[p] = append(st.pools[p], args[1])
 	return nil
 }
